@@ -75,6 +75,10 @@ type c05ACase struct {
 	// release options that reach .Capabilities (helm template --api-versions / --kube-version)
 	APIVersions []string `json:"apiVersions,omitempty"`
 	KubeVersion string   `json:"kubeVersion,omitempty"`
+	// IncludeCRDs: every chart carries a crds/ file and the render includes them (helm template --include-crds);
+	// SkipSchema: --skip-schema-validation
+	IncludeCRDs bool `json:"includeCRDs,omitempty"`
+	SkipSchema  bool `json:"skipSchemaValidation,omitempty"`
 }
 
 // c05Other is the same chart rendered under different release options: what it renders must not matter to c.
@@ -85,7 +89,18 @@ func c05Other(c c05ACase) c05ACase {
 		o.APIVersions = []string{"alpha.example/v1", "gamma.example/v2"}
 	}
 	o.KubeVersion = "v1.19.3"
+	o.SkipSchema = !c.SkipSchema
 	return o
+}
+
+// c05Poison is a chart whose render fails inside a named template, after that template has produced output.
+func c05Poison() *chart.Chart {
+	return &chart.Chart{Metadata: &chart.Metadata{APIVersion: "v2", Name: "poison", Version: "1.0.0"},
+		Values: map[string]interface{}{"secret": "s3cr3t-of-another-release"},
+		Templates: []*chart.File{
+			{Name: "templates/_helpers.tpl", Data: []byte("{{- define \"helper\" -}}leftover {{ .Values.secret }} {{ required \"token is required\" .Values.token }}{{- end -}}")},
+			{Name: "templates/cm.yaml", Data: []byte("apiVersion: v1\nkind: ConfigMap\nmetadata:\n  name: p\ndata:\n  v: {{ include \"helper\" . | quote }}\n")},
+		}}
 }
 
 func c05GenChart(t *rapid.T, name string, depth int, notes bool) *c05Chart {
@@ -117,7 +132,8 @@ func c05GenChart(t *rapid.T, name string, depth int, notes bool) *c05Chart {
 	}
 	if depth > 0 {
 		for i, n := 0, rapid.IntRange(0, 3).Draw(t, name+"nSub"); i < n; i++ {
-			c.Deps = append(c.Deps, c05GenChart(t, fmt.Sprintf("%ss%d", name, i), depth-1, rapid.IntRange(0, 3).Draw(t, "subNotesFile") > 0))
+			// (named so that the order in which they are loaded is not the alphabetical one)
+			c.Deps = append(c.Deps, c05GenChart(t, fmt.Sprintf("%ss%d", name, n-1-i), depth-1, rapid.IntRange(0, 3).Draw(t, "subNotesFile") > 0))
 		}
 	}
 	return c
@@ -151,6 +167,7 @@ func (c *c05Chart) build(perm func(n int) []int) *chart.Chart {
 	}
 	ch.Values = map[string]interface{}{"s": "sv", "m": m, "global": map[string]interface{}{"g": "gv"},
 		"ports": []interface{}{map[string]interface{}{"name": "http", "port": float64(80)}}}
+	ch.Files = append(ch.Files, &chart.File{Name: "crds/" + c.Name + ".yaml", Data: []byte("apiVersion: apiextensions.k8s.io/v1\nkind: CustomResourceDefinition\nmetadata:\n  name: things." + c.Name + ".example\n")})
 	for _, i := range order(len(c.Deps)) {
 		ch.AddDependency(c.Deps[i].build(perm))
 	}
@@ -169,6 +186,7 @@ func c05Render(c c05ACase, perm func(n int) []int) c05Out {
 func c05RenderChart(c c05ACase, ch *chart.Chart) c05Out {
 	in := action.NewInstall(&action.Configuration{})
 	in.ClientOnly, in.DryRun, in.ReleaseName, in.Namespace, in.SubNotes = true, true, "r", "default", c.SubNotes
+	in.IncludeCRDs, in.SkipSchemaValidation = c.IncludeCRDs, c.SkipSchema
 	in.APIVersions = chartutil.VersionSet(append([]string(nil), c.APIVersions...))
 	if c.KubeVersion != "" {
 		kv, err := chartutil.ParseKubeVersion(c.KubeVersion)
@@ -226,6 +244,12 @@ func c05JudgeA(tb vt.TB, c c05ACase, permSeeds [][]int) {
 			return
 		}
 	}
+	// (1c) ... and once more after the same object was rendered under other release options
+	c05RenderChart(c05Other(c), same)
+	if o := c05RenderChart(c, same); c05Diff(base, o) != "" {
+		fail("C05:A/render-of-a-chart-object-depends-on-an-earlier-render-of-it-with-other-options/"+c05Diff(base, o)+ctx, c05Diff(base, o), o)
+		return
+	}
 	// (2) permutation of load order
 	for _, seed := range permSeeds {
 		perm := func(n int) []int {
@@ -239,7 +263,15 @@ func c05JudgeA(tb vt.TB, c c05ACase, permSeeds [][]int) {
 			}
 			return o
 		}
-		if o := c05Render(c, perm); c05Diff(base, o) != "" {
+		// (the CRD section lists the subcharts' CRDs in the order the chart holds its dependencies - for a chart directory
+		// the alphabetical one - so this clause is judged without it)
+		cNoCRDs, baseNoCRDs := c, base
+		if c.IncludeCRDs {
+			cNoCRDs.IncludeCRDs = false
+			baseNoCRDs = c05Render(cNoCRDs, nil)
+		}
+		if o := c05Render(cNoCRDs, perm); c05Diff(baseNoCRDs, o) != "" {
+			base = baseNoCRDs
 			fail("C05:A/render-depends-on-load-order/"+c05Diff(base, o)+ctx, c05Diff(base, o), o)
 			return
 		}
@@ -249,6 +281,14 @@ func c05JudgeA(tb vt.TB, c c05ACase, permSeeds [][]int) {
 	c05Render(other, nil)
 	if o := c05Render(c, nil); c05Diff(base, o) != "" {
 		fail("C05:A/render-depends-on-an-earlier-render-with-other-options/"+c05Diff(base, o)+ctx, c05Diff(base, o), o)
+		return
+	}
+	// (3b) ... and neither does a render of another chart that failed half way through a named template
+	if p := c05RenderChart(c, c05Poison()); p.Err == "" {
+		tb.Fatalf("harness: the poison chart rendered")
+	}
+	if o := c05Render(c, nil); c05Diff(base, o) != "" {
+		fail("C05:A/render-depends-on-an-earlier-failed-render/"+c05Diff(base, o)+ctx, c05Diff(base, o), o)
 		return
 	}
 	// (4) concurrency: private copies rendered at the same time, next to renders under other release options
@@ -295,6 +335,8 @@ func c05AProp(t *rapid.T) {
 	c := c05ACase{Root: c05GenChart(t, "root", 2, true), SubNotes: rapid.Bool().Draw(t, "subNotes")}
 	c.APIVersions = rapid.SampledFrom([][]string{nil, {"alpha.example/v1"}, {"beta.example/v1"}, {"alpha.example/v1", "beta.example/v1"}}).Draw(t, "apiVersions")
 	c.KubeVersion = rapid.SampledFrom([]string{"", "", "v1.28.0", "v1.31.2"}).Draw(t, "kubeVersion")
+	c.IncludeCRDs = rapid.IntRange(0, 2).Draw(t, "includeCRDs") == 0
+	c.SkipSchema = rapid.IntRange(0, 2).Draw(t, "skipSchemaValidation") == 0
 	seeds := [][]int{rapid.SliceOfN(rapid.IntRange(0, 1000), 6, 6).Draw(t, "perm1"), rapid.SliceOfN(rapid.IntRange(0, 1000), 6, 6).Draw(t, "perm2")}
 	c05JudgeA(t, c05ACaseWith(c), seeds)
 	files, notes, ranged, subs := 0, 0, false, 0
